@@ -4,7 +4,7 @@ use egmon::{jobj, main_with, rng::mix, target::FastSet, Ctx, Run};
 use embedded_graphics::{
     pixelcolor::BinaryColor,
     prelude::*,
-    primitives::{Line, PrimitiveStyle},
+    primitives::{Line, PrimitiveStyle, PrimitiveStyleBuilder, StrokeAlignment},
 };
 
 fn check_thin(ctx: &mut Ctx, a: Point, b: Point) -> Vec<Point> {
@@ -52,13 +52,22 @@ fn check_thin(ctx: &mut Ctx, a: Point, b: Point) -> Vec<Point> {
 fn check_thick(ctx: &mut Ctx, a: Point, b: Point, w: u32, thin: &[Point]) {
     ctx.eval();
     let line = Line::new(a, b);
-    let styled = line.into_styled(PrimitiveStyle::with_stroke(BinaryColor::On, w));
+    // the stroke alignment of the style is documented to be ignored for lines: every clause must
+    // hold for all three values (chosen by the case), via the shorthand constructor for Center half of the time
+    let align = (a.x as i64 + 3 * b.y as i64 + w as i64).rem_euclid(4);
+    let style = match align {
+        0 => PrimitiveStyle::with_stroke(BinaryColor::On, w),
+        1 => PrimitiveStyleBuilder::new().stroke_color(BinaryColor::On).stroke_width(w).stroke_alignment(StrokeAlignment::Inside).build(),
+        2 => PrimitiveStyleBuilder::new().stroke_color(BinaryColor::On).stroke_width(w).stroke_alignment(StrokeAlignment::Outside).build(),
+        _ => PrimitiveStyleBuilder::new().stroke_color(BinaryColor::On).stroke_width(w).stroke_alignment(StrokeAlignment::Center).build(),
+    };
+    let styled = line.into_styled(style);
     let (dx, dy) = ((b.x - a.x) as i64, (b.y - a.y) as i64);
     let len2 = dx * dx + dy * dy;
     let major = dx.abs().max(dy.abs());
     let budget = ((major + 2 * w as i64 + 8) * (2 * w as i64 + 8) * 4) as usize;
     let px: Vec<Point> = styled.pixels().take(budget + 1).map(|p| p.0).collect();
-    let case = || format!("Line {:?} -> {:?} stroke width {}", (a.x, a.y), (b.x, b.y), w);
+    let case = || format!("Line {:?} -> {:?} stroke width {} alignment {}", (a.x, a.y), (b.x, b.y), w, ["Center (with_stroke)", "Inside", "Outside", "Center"][align as usize]);
     if px.len() > budget {
         ctx.violation("thick|exceeds-step-budget", case, || format!("more than {} pixels", budget));
         return;
